@@ -1,2 +1,2 @@
-From LV Require Import Machine.Allot Ledger.Types Ledger.Core.
-NAMES allocate new_allotment_checked step init_state
+From LV Require Import Machine.Allot Ledger.Types Ledger.Core Ledger.HttpView.
+NAMES allocate new_allotment_checked step init_state http_answer_of http_error
